@@ -203,6 +203,13 @@ fn parent(prop: &str, tier: Tier) -> i32 {
     let out_dir = Path::new(VERIF_ROOT).join("out").join(prop);
     let _ = std::fs::remove_dir_all(&out_dir);
     std::fs::create_dir_all(&out_dir).unwrap();
+    if let Ok(rd) = std::fs::read_dir(Path::new(VERIF_ROOT).join("out").join("violations")) {
+        for e in rd.filter_map(|e| e.ok()) {
+            if e.file_name().to_string_lossy().starts_with(&format!("{prop}-")) {
+                let _ = std::fs::remove_file(e.path());
+            }
+        }
+    }
     let known = KnownFindings::load();
     let mut violations: Vec<(String, String)> = vec![]; // (signature, replay path)
     let mut known_lines: std::collections::BTreeMap<String, String> = Default::default();
